@@ -8,6 +8,8 @@ CLAIMED = {
  "C03": ("srv", "4 C03", "seeded search over interleavings of reader/dispatcher/handlers with held handlers; happens-before oracle on handler exit/enter sequence numbers plus a progress oracle at every quiescent point"),
  "C04": ("cli", "4 C04", "seeded search over concurrent Call/CallResult/Batch/Notify tasks against a scripted raw peer that answers in any order, grouped into arrays, duplicated, with unknown ids, single-defect members and server notifications/callbacks; unique-payload attribution oracle, batch order, id reuse, no panic"),
  "C05": ("cli", "4 C05", "seeded search over reply vs context cancel vs fake-clock deadline vs Close (also concurrent) vs peer EOF vs Recv/Send failure at scripted operation indexes vs malformed record; must/may outcome oracle, exactly-once hooks, Close-after-callbacks, operations on a stopped client, goroutine census"),
+ "C11": ("stream", "4 C11", "a pipelined sender task and a receiver task over a simulated byte stream whose read chunking the simulator chooses (1-byte reads, random cuts, a single cut at a drawn position, everything at once, last chunk together with io.EOF), record sizes empty to > 1 MiB followed by small ones; received sequence must equal the sent sequence, then io.EOF twice; split-byte refusal"),
+ "C12": ("stream", "4 C12", "fault injection on the byte stream (truncation at a drawn byte offset, byte flip/insert/delete, adversarial header blocks, random streams) under drawn fragmentation; every Recv is compared with three-valued reference decoders written from the package documentation; a worker process that dies (out of memory) is reported with its seed"),
  "C06": ("srv", "4 C06", "seeded search with Concurrency 1..4; online running-handler counter invariant at every handler entry and LogRequest, work-conservation oracle at quiescent points, proven cancel-while-waiting sub-scenario"),
  "C08": ("srv", "4 C08", "seeded search over stop causes (Stop, also from handlers and twice; early peer close; Recv failure with/without data, data+EOF; Send failure) placed at every channel-operation index, both Close-unblocks-Recv settings, traffic before and after the stop, then restart on a fresh channel; must/may status oracle, handler/ctx obligations, goroutine census, servers_active delta, restart probe"),
  "C09": ("srv", "4 C09", "seeded search over Notify/Callback from handlers and outside tasks with cancellable and fake-clock-deadline contexts, scripted peer answering in any order / late / duplicated / for unknown ids / never, colliding id spaces, Stop; exactly-once return, unique payload attribution and no-stray-output oracles"),
@@ -15,8 +17,6 @@ CLAIMED = {
  "C07": ("srv", "4 C07", "seeded search with ids from a pool of 3 and CancelRequest at arbitrary points; must/may oracle over arrival, handler and reply-send sequence numbers"),
 }
 PENDING = {
- "C11": "check not built yet in this session - planned, see DESIGN.md 4 C11",
- "C12": "check not built yet in this session - planned, see DESIGN.md 4 C12",
  "C18": "check not built yet in this session - planned, see DESIGN.md 4 C18",
  "C19": "check not built yet in this session - planned, see DESIGN.md 4 C19",
  "C20": "check not built yet in this session - planned, see DESIGN.md 4 C20",
@@ -30,6 +30,7 @@ NA = {
  "C17": "pure function (method name -> handler) of the name and one configuration bit; no schedule, time or fault involved",
 }
 FAM_NOTE = {
+ "stream": "Trusted: the simulated byte stream, the reference encoders/decoders (written from the package documentation; they abstain where it is silent), the scheduler. Workers run under ulimit -v 6 GiB so that an absurd allocation kills the worker and is reported. Sampling: a clean run is evidence, not proof.",
  "cli": "Trusted: the AST instrumenter, the token-passing scheduler over testing/synctest, the simulated channel, the scripted peer and the oracle. Assumes the peer closes its end after seeing EOF (as the property does) and data-race freedom of the library. Sampling: a clean run is evidence, not proof.",
  "srv": "Trusted: the AST instrumenter (yields before every acquire-type synchronisation operation), the token-passing scheduler over testing/synctest, the simulated channel and scripted peer, the reference oracle. Assumes data-race freedom of the library (context switches only at synchronisation operations). Sampling: a clean run is evidence, not proof.",
 }
